@@ -2,7 +2,7 @@
    (After the repair "fix: verify and re-export the hashed subpacket area exactly as received".) *)
 From Coq Require Import ZArith List Bool.
 Import ListNotations.
-Require Import PV.Lib.Bytes PV.Model.HashData PV.Proofs.HashData_lemmas.
+Require Import PV.Lib.Bytes PV.Model.HashData PV.Model.SubArea PV.Proofs.HashData_lemmas PV.Proofs.SubArea_lemmas.
 Open Scope Z_scope.
 
 (* the packet body of every accepted signature is  type, pk alg, hash alg, <hashed region kept by the parser>, rest *)
@@ -36,3 +36,32 @@ Print Assumptions C05_signed_region_change_changes_input.
 Example C05_accepts_foreign : exists s, sig_body_parse [19; 22; 8; 0; 12; 2; 4; 1; 2; 27; 255; 255; 0; 0; 0; 1; 101; 0; 0; 171; 205; 0; 1; 1] = Some s
   /\ sp_hashed_raw (sg_sub s) = [0; 12; 2; 4; 1; 2; 27; 255; 255; 0; 0; 0; 1; 101].
 Proof. eexists. split; vm_compute; reflexivity. Qed.
+
+(* ---------- the SubPackets object as a state machine (Model/SubArea.v): parse, add subpackets, copy, serialise ---------- *)
+(* what a parsed signature feeds to the hash for its hashed area is the received area, for EVERY way the parsed objects
+   might serialise (reser), ... *)
+Theorem C05_hashed_emit_is_received : forall reser p st rest, sa_parse p = Some (st, rest) ->
+  sa_hashed_emit reser st = firstn (Z.to_nat (unbe (firstn 2 p)) + 2) p.
+Proof. exact hashed_emit_is_received. Qed.
+Print Assumptions C05_hashed_emit_is_received.
+
+(* ... and stays so along every history of copies (PGPKey.pubkey, copy.copy) and additions to the UNHASHED area *)
+Theorem C05_parsed_then_history_hashes_received : forall reser p st rest ops,
+  sa_parse p = Some (st, rest) -> forallb (fun o => negb (touches_hashed o)) ops = true ->
+  sa_hashed_emit reser (sa_run st ops) = firstn (Z.to_nat (unbe (firstn 2 p)) + 2) p.
+Proof. exact parsed_then_history_hashes_received. Qed.
+Print Assumptions C05_parsed_then_history_hashes_received.
+
+(* no stale octets: after a subpacket was added to the hashed area the received octets of that area are gone *)
+Theorem C05_never_stale : forall reser ops s,
+  (sa_hraw (sa_run s ops) = None -> sa_hashed_emit reser (sa_run s ops) = reser (sa_h (sa_run s ops))) /\
+  (existsb touches_hashed ops = true -> sa_hraw (sa_run s ops) = None) /\
+  (existsb touches_unhashed ops = true -> sa_uraw (sa_run s ops) = None).
+Proof. exact never_stale. Qed.
+Print Assumptions C05_never_stale.
+
+(* the premise is inhabited by a history with a copy and an added unhashed subpacket *)
+Example C05_history_example : exists st rest,
+  sa_parse [0; 3; 2; 4; 2;  0; 0;  9; 9] = Some (st, rest) /\
+  sa_hashed_emit (fun _ => []) (sa_run st [Copy; SetU (16, false, [1; 2; 3; 4; 5; 6; 7; 8]); Copy]) = [0; 3; 2; 4; 2].
+Proof. eexists. eexists. split; vm_compute; reflexivity. Qed.
